@@ -2214,7 +2214,7 @@ func (p *parser) parseElementListOrComprehension() (list []ast.Expr, mce *ast.Co
 		list = append(list, p.parseElement())
 		if p.tok == token.FOR { // for k, v <- container
 			if len(list) != 1 {
-				log.Panicln("TODO: invalid comprehension: too may elements.")
+				p.error(list[1].Pos(), "invalid comprehension: too many elements")
 			}
 			phrases := p.parseForPhrases()
 			return nil, &ast.ComprehensionExpr{Elt: list[0], Fors: phrases}
